@@ -288,8 +288,29 @@ pub fn det_case(
     // the open known findings) - state left behind by any of them must not change the subject
     let mut failing = by_tasks[1].clone();
     let mut fr = rng.sub("failing");
-    match fr.below(4) {
+    let pick = if subject.api == crate::exec::Api::Preprocess && fr.chance(3, 4) {
+        4
+    } else {
+        fr.below(6)
+    };
+    match pick {
         0 => failing.faults = vec![Fault::new(FaultKind::NotFound, Sel::LoadIndex(0))],
+        4 | 5 => {
+            // a generated include graph with ## pastes whose preprocessing fails half-way
+            // (a failed load, a lost line, a NUL byte ...), or that fails in the parser
+            let g = crate::w3::generate(
+                &mut fr.sub("graph"),
+                crate::w3::Mode::Hostile,
+                crate::w3::Form::Pre,
+            );
+            let base = crate::model::run(&g.fs, &[], &g.entry, &g.defines);
+            let mut t = crate::w3::compile_task(&g, &mut fr.sub("target"));
+            t.faults = crate::c12::fault_plan(&mut fr.sub("faults"), &g, &base, 2);
+            fss.push(g.fs.clone());
+            t.fs = fss.len() - 1;
+            t.subject = false;
+            failing = t;
+        }
         n => {
             let src = [
                 "static int a; void f() { undeclared_name = a; }\n",
